@@ -8,6 +8,11 @@
 #include <ArduinoJson/Polyfills/preprocessor.hpp>
 #include <ArduinoJson/version.hpp>
 
+#ifdef BBLANCHON_ARDUINOJSON_VERIF
+// read-only inspection hook used by external verification harnesses
+struct ArduinoJsonVerifInspector;
+#endif
+
 #ifndef ARDUINOJSON_VERSION_NAMESPACE
 
 #  define ARDUINOJSON_VERSION_NAMESPACE                               \
